@@ -633,11 +633,17 @@ class MQTTProtocol(MQTTBaseProtocol):
             if inherited and request.protocol is self:
                 continue
             del self.factory.windowPublish[self.addr][k]
+            if request.alarm is not None:   # sent again on this connection before the purge
+                request.alarm.cancel()
+                request.alarm = None
             request.deferred.errback(reason)
 
         for k in list(self.factory.windowPubRelease[self.addr]):
             request = self.factory.windowPubRelease[self.addr][k]
             del self.factory.windowPubRelease[self.addr][k]
+            if request.alarm is not None:
+                request.alarm.cancel()
+                request.alarm = None
             request.deferred.errback(reason)
 
         # messages still waiting for a free window slot belong to the session too
